@@ -24,6 +24,8 @@ def run(rep, tier):
     rep.rule("R-EVT-ONE", "the direction filter is applied to (previous value, current value) of the same event function in the order of integration (symbolic values of the arguments of the sign-change test)")
     H.r_evt_args(rep, hc)
     H.r_evt_sort(rep, hc)
+    rep.rule("R-TIME-MINMAX", "time points in the output handler are never ordered with a bare min/max/clamp (direction-dependent): only sorted pairs or under a direction test")
+    H.r_time_minmax(rep, hc)
     H.r_term(rep, hc)
     rep.explanation = ("Structural + finite-domain: shapes, provenance of reported event states, complete truth table of the direction filter, "
                        "chronological ordering. Not decided: |g(t_e,y_e)| small and t_e inside the bracket (Brent's invariants over run-time floats).")
